@@ -30,7 +30,7 @@ def run_native(mods, flt, repo="/repo", timeout=3600, extra_args=None):
         env = dict(os.environ, CARGO_NET_OFFLINE="true", CARGO_TARGET_DIR=TARGET, RUST_BACKTRACE="0")
         cmd = ["cargo", "test", "--lib", "--offline", "-p", "rnacos", flt, "--", "--nocapture", "--test-threads", "1"] + (extra_args or [])
         p = subprocess.run(cmd, cwd=dst, env=env, capture_output=True, text=True, timeout=timeout)
-        return p.returncode, p.stdout[-6000:] + "\n" + p.stderr[-6000:]
+        return p.returncode, p.stdout[-40000:] + "\n" + p.stderr[-40000:]
     finally:
         shutil.rmtree(scratch, ignore_errors=True)
 
